@@ -10,6 +10,9 @@ import (
 )
 
 func validateEnums(env *Environment, errorSink *validation.ErrorSink) *Environment {
+	// Base types can only be looked at if all types are resolved and free of reference cycles
+	typesAreSound := len(errorSink.Errors) == 0
+
 	Visit(env, func(self Visitor, node Node) {
 		enum, ok := node.(*EnumDefinition)
 		if !ok {
@@ -49,6 +52,8 @@ func validateEnums(env *Environment, errorSink *validation.ErrorSink) *Environme
 		var baseType PrimitiveDefinition
 		if enum.BaseType == nil {
 			baseType = PrimitiveInt32
+		} else if !typesAreSound {
+			return
 		} else {
 			underlyingType := GetUnderlyingType(enum.BaseType)
 			switch bt := underlyingType.(type) {
